@@ -11,7 +11,22 @@ cp $SEED/patch.diff $SEED/demo.py $OUT/ 2>/dev/null
 [ -f $SEED/notes.md ] && cp $SEED/notes.md $OUT/
 git -C /repo worktree remove --force $WT >/dev/null 2>&1
 git -C /repo worktree add -f $WT HEAD -q || exit 9
-APPLY=ok; git -C $WT apply $SEED/patch.diff || APPLY=failed
+APPLY=ok; BASE=HEAD
+if git -C $WT apply $SEED/patch.diff 2>/dev/null; then :
+elif (cd $WT && patch -p1 -F3 -s --no-backup-if-mismatch < $SEED/patch.diff >/dev/null 2>&1); then APPLY=ok; BASE="HEAD (patch -F3: context moved by later fix commits)"
+else
+  git -C $WT checkout -q -- . 2>/dev/null
+  # the seed was written against an earlier /repo HEAD (later fix: commits touched the same lines)
+  if [ -n "${SEED_BASE:-}" ]; then
+    git -C /repo worktree remove --force $WT >/dev/null 2>&1
+    git -C /repo worktree add -f $WT $SEED_BASE -q || exit 9
+    BASE=$SEED_BASE
+    git -C $WT apply $SEED/patch.diff || APPLY=failed
+  else
+    APPLY=failed
+  fi
+fi
+find $WT -name '*.orig' -o -name '*.rej' | xargs -r rm -f
 SUITE=$(cd $WT && /venv/bin/python -m pytest -q -p no:cacheprovider --timeout=900 --continue-on-collection-errors test 2>&1 | tail -1)
 (cd /tmp && PYTHONPATH=$WT PYTHONWARNINGS=ignore timeout 300 /venv/bin/python $SEED/demo.py >/tmp/seedeval-$NAME.demo1 2>&1); D1=$?
 (cd /tmp && PYTHONPATH=/repo PYTHONWARNINGS=ignore timeout 300 /venv/bin/python $SEED/demo.py >/tmp/seedeval-$NAME.demo0 2>&1); D0=$?
@@ -25,11 +40,11 @@ for P in "$@"; do
 done
 RES="${RES%,}]"
 git -C /repo worktree remove --force $WT >/dev/null 2>&1
-python3 - "$OUT" "$NAME" "$APPLY" "$SUITE" "$D1" "$D0" "$RES" <<'PY'
+python3 - "$OUT" "$NAME" "$APPLY" "$SUITE" "$D1" "$D0" "$RES" "$BASE" <<'PY'
 import json,sys
 out,name,apply,suite,d1,d0,res=sys.argv[1:8]
 meta=dict(seed=name, patch_applies=apply, suite_with_patch=suite, demo_exit_with_patch=int(d1), demo_exit_without_patch=int(d0), checks=json.loads(res),
-          ran='git worktree of /repo HEAD + patch; pytest suite; demo.py with PYTHONPATH=<patched tree> and =/repo; VERIF_REPO=<patched tree> ./check <id> (quick tier)')
+          base=sys.argv[8], ran='git worktree of /repo <base> + patch; pytest suite; demo.py with PYTHONPATH=<patched tree> and =/repo; VERIF_REPO=<patched tree> ./check <id> (quick tier)')
 import re, time, subprocess
 try:
     old=json.load(open(out+'/meta.json'))
